@@ -275,8 +275,9 @@ class IH5InnerNode(IH5Node):
                     is_virtual[k] = _node_is_virtual(self._get_child_raw(k, i))
                     children[k] = i
                 elif is_virtual[k]:  # .. and k in children!
-                    # decrease lower bound
+                    # decrease lower bound (until reaching a non-virtual node)
                     children[k] = min(children[k], i)
+                    is_virtual[k] = _node_is_virtual(self._get_child_raw(k, i))
 
         # return resulting child nodes / attributes (without the deleted ones)
         # in alphabetical order,
